@@ -61,13 +61,18 @@ def o_frame(spec, r, extra):
 ORACLES = {'frame': o_frame}
 
 def job_frame(res, kind, ip, dp, c, n, splits, symc=False, seed=0):
+    pattern = symc if isinstance(symc, str) else None; symc = bool(symc) and pattern is None      # pattern: per-sample loud / quiet constraint for level-driven processors (one path per pattern instead of every path)
     mod, so = load(HARNESS); name, in_w, _, _ = KINDS[kind]; nc = len(c)
     xn = [f'x{i}' for i in range(n * in_w)]
     cap = 8 * n * in_w * max(ip[0] if kind in (5, 6, 7) else 1, 1) + 4 * (ip[0] if ip else 1) + 64
     for (s1, s2) in splits:
-        label = f'{name} int={ip} dbl={[round(v, 4) for v in dp]} taps={nc} n={n} frames={frames_of(n, s1, s2)}'
+        label = f'{name} int={ip} dbl={[round(v, 4) for v in dp]} taps={nc} n={n} frames={frames_of(n, s1, s2)}' + (f' level pattern {pattern}' if pattern else '')
         def setup(m):
             cs = [fsym(f'c{i}') for i in range(nc)] if symc else c
+            if pattern:
+                tl = z3.RealVal(Fraction(10 ** (dp[0] / 20)))
+                for i_, ch in enumerate(pattern):
+                    X_ = z3.Real(xn[i_]); m.assume(z3.Or(X_ >= 2 * tl, X_ <= -2 * tl) if ch == 'L' else z3.And(X_ < tl / 2, X_ > -tl / 2))
             args = [kind, m.alloc_ints(ip + [0], 32, 'ip'), m.alloc_doubles(dp + [0.0], 'dp'), m.alloc_doubles(cs, 'c'), nc, in_w, m.alloc_doubles([fsym(s) for s in xn], 'x'), n, s1, s2]
             ya = m.alloc_doubles([0.0] * cap, 'ya'); yb = m.alloc_doubles([0.0] * cap, 'yb'); cnt = m.alloc_ints([0, 0], 32, 'cnt')
             return args + [ya, yb, cnt], (ya, yb, cnt)
@@ -161,11 +166,14 @@ def configs(tier, seed):
     cf.append((16, [100, 5], [-10.0, 0.0, 0.01, 0.02], [], 3, [(1, 1), (2, 2), (1, 2)], False)); cf.append((16, [100, 3], [-20.0, 6.0, 0.0, 0.05], [], 3, [(1, 1), (1, 2)], False))
     cf.append((17, [100], [-6.0, 0.0, 0.0, 0.02], [], 3, [(1, 1), (2, 2), (1, 2)], False)); cf.append((17, [100], [-12.0, 4.0, 0.01, 0.05], [], 3, [(1, 1), (1, 2)], False))
     for hold in (0.0, 0.1, 0.2): cf.append((18, [10], [-20.0, 0.3, 0.2, hold], [], 4, [(1, 1), (2, 2), (3, 3), (1, 3)], False))
+    # longer gate streams, one path per loud (L) / quiet (Q) pattern: hold partly consumed, re-opened, frames lying entirely in a loud or quiet passage
+    for pat in (('LQLQQQQ', 'LLQLLQQ', 'QLQQLQQ', 'LQQLQQQ') if q else ('LQLQQQQ', 'LLQLLQQ', 'QLQQLQQ', 'LQQLQQQ', 'LQLQLQQ', 'LLLQQQQ', 'QQLLQQL', 'LQQQLQQ')):
+        cf.append((18, [10], [-20.0, 0.1, 0.0, 0.3], [], 7, [(2, 3), (1, 3), (2, 5), (3, 4), (1, 1), (4, 4)], pat)); cf.append((18, [10], [-20.0, 0.2, 0.1, 0.2], [], 7, [(2, 3), (3, 5), (2, 2)], pat))
     return cf
 
 def selftest(st):
     mod, so = load(HARNESS); calls = []
-    for (kind, ip, dp, c, n, splits, symc) in configs('quick', 0)[::3]:
+    for (kind, ip, dp, c, n, splits, symc) in [c_ for c_ in configs('quick', 0) if not isinstance(c_[6], str)][::3]:
         in_w = KINDS[kind][1]; rnd = random.Random(kind); xv = [rnd.uniform(-1, 1) for _ in range(n * in_w)]; s1, s2 = splits[len(splits) // 2]
         cap = 8 * n * in_w * max(ip[0] if kind in (5, 6, 7) else 1, 1) + 4 * (ip[0] if ip else 1) + 64
         calls.append(('h_frame', [('i32', kind), ('pi32', ip + [0]), ('pf64', dp + [0.0]), ('pf64', c), ('i32', len(c)), ('i32', in_w), ('pf64', xv), ('i32', n), ('i32', s1), ('i32', s2),
